@@ -96,6 +96,70 @@ func growth(c *ctx) {
 		emit(map[string]interface{}{"k": "status", "key": fmt.Sprintf("status/%d", code), "code": code, "notUsed": s.IsNotUsed(), "protocolSpec": s.IsProtocolSpec(),
 			"appSpec": s.IsApplicationSpec(), "privateSpec": s.IsPrivateSpec(), "reserved": s.IsProtocolReserved(), "empty": s.Empty()})
 	}
+	// State bit helpers
+	for st := 0; st < 16; st++ {
+		s := ws.State(st)
+		for bit := 0; bit < 4; bit++ {
+			b := ws.State(1 << bit)
+			emit(map[string]interface{}{"k": "state", "key": fmt.Sprintf("state/%d/%d", st, bit), "st": st, "bit": 1 << bit,
+				"is": s.Is(b), "set": int(s.Set(b)), "clear": int(s.Clear(b)),
+				"server": s.ServerSide(), "client": s.ClientSide(), "extended": s.Extended(), "fragmented": s.Fragmented()})
+		}
+	}
+	// StatusCode.In / IsProtocolDefined
+	for _, code := range []int{0, 999, 1000, 1001, 1002, 1003, 1004, 1005, 1006, 1007, 1008, 1009, 1010, 1011, 1012, 1015, 1016, 2999, 3000, 4999, 5000} {
+		s := ws.StatusCode(code)
+		emit(map[string]interface{}{"k": "statusdef", "key": fmt.Sprintf("statusdef/%d", code), "code": code, "defined": s.IsProtocolDefined(),
+			"inApp": s.In(ws.StatusRangeApplication), "inPrivate": s.In(ws.StatusRangePrivate), "inProtocol": s.In(ws.StatusRangeProtocol), "inNotInUse": s.In(ws.StatusRangeNotInUse)})
+	}
+	// frame constructors and the one-call message writers
+	for _, ln := range []int{0, 1, 125, 126, 70000} {
+		p := vh.PBytes(4, 0, ln)
+		ctor := func(name string, f ws.Frame, op int) {
+			emit(map[string]interface{}{"k": "ctor", "key": fmt.Sprintf("ctor/%s/%d", name, ln), "name": name, "wantOp": op, "op": int(f.Header.OpCode), "fin": f.Header.Fin, "rsv": int(f.Header.Rsv),
+				"masked": f.Header.Masked, "len": int(f.Header.Length), "plen": len(f.Payload), "payOK": bytes.Equal(f.Payload, p)})
+		}
+		ctor("NewTextFrame", ws.NewTextFrame(p), 1)
+		ctor("NewBinaryFrame", ws.NewBinaryFrame(p), 2)
+		ctor("NewFrame", ws.NewFrame(ws.OpContinuation, true, p), 0)
+		if ln <= 125 {
+			ctor("NewPingFrame", ws.NewPingFrame(p), 9)
+			ctor("NewPongFrame", ws.NewPongFrame(p), 10)
+			ctor("NewCloseFrame", ws.NewCloseFrame(p), 8)
+		}
+		type wfn struct {
+			name   string
+			client bool
+			op     int
+			f      func(io.Writer) error
+		}
+		for _, w := range []wfn{
+			{"WriteServerMessage", false, 2, func(d io.Writer) error { return wsutil.WriteServerMessage(d, ws.OpBinary, p) }},
+			{"WriteServerText", false, 1, func(d io.Writer) error { return wsutil.WriteServerText(d, p) }},
+			{"WriteServerBinary", false, 2, func(d io.Writer) error { return wsutil.WriteServerBinary(d, p) }},
+			{"WriteClientMessage", true, 1, func(d io.Writer) error { return wsutil.WriteClientMessage(d, ws.OpText, p) }},
+			{"WriteClientText", true, 1, func(d io.Writer) error { return wsutil.WriteClientText(d, p) }},
+			{"WriteClientBinary", true, 2, func(d io.Writer) error { return wsutil.WriteClientBinary(d, p) }},
+			{"WriteMessage", ln%2 == 0, 2, func(d io.Writer) error {
+				st := ws.StateServerSide
+				if ln%2 == 0 {
+					st = ws.StateClientSide
+				}
+				return wsutil.WriteMessage(d, st, ws.OpBinary, p)
+			}},
+		} {
+			var d bytes.Buffer
+			before := append([]byte(nil), p...)
+			err := w.f(&d)
+			fs, rest := vh.ParseFrames(d.Bytes())
+			rec := map[string]interface{}{"k": "wmsg", "key": fmt.Sprintf("wmsg/%s/%d", w.name, ln), "err": err != nil, "frames": len(fs), "rest": len(rest),
+				"client": w.client, "wantOp": w.op, "callerIntact": bytes.Equal(before, p), "op": -1, "fin": false, "rsv": 0, "masked": false, "payOK": false}
+			if len(fs) == 1 {
+				rec["op"], rec["fin"], rec["rsv"], rec["masked"], rec["payOK"] = fs[0].Op, fs[0].Fin, fs[0].Rsv, fs[0].Masked, bytes.Equal(fs[0].Raw, p)
+			}
+			emit(rec)
+		}
+	}
 	// Upgrader callback order
 	hdrs := [][2]string{{"Host", "h"}, {"X-A", "1"}, {"Upgrade", "websocket"}, {"Cookie", "c=d"}, {"Connection", "Upgrade"}, {"Sec-WebSocket-Version", "13"},
 		{"X-B", "2"}, {"Sec-WebSocket-Key", "dGhlIHNhbXBsZSBub25jZQ=="}, {"Origin", "o"}}
